@@ -21,6 +21,7 @@ func VerifC04Isolation() {
 	// script body: snapshot, two defers, optional read-only dir, then an exit kind
 	exit := rt.IntRange(0, 3) // 0 pass, 1 fail, 2 skip, 3 stop
 	ro := rt.Bool()
+	deferExits := rt.Bool() // the second deferred function ends the test itself (FailNow)
 	var sb strings.Builder
 	sb.WriteString("snap\ndefer 1\ndefer 2\n")
 	if ro {
@@ -87,7 +88,12 @@ func VerifC04Isolation() {
 			"defer": func(ts *TestScript, neg bool, args []string) {
 				n, _ := strconv.Atoi(args[0])
 				idx := len(order) - 1
-				ts.Defer(func() { order[idx] = append(order[idx], n) })
+				ts.Defer(func() {
+					order[idx] = append(order[idx], n)
+					if deferExits && n == 2 {
+						ts.t.FailNow()
+					}
+				})
 			},
 			"mkro": func(ts *TestScript, neg bool, args []string) {
 				ts.Check(fsys_MkdirRO(ts.MkAbs("rodir")))
@@ -164,6 +170,11 @@ func VerifC04Isolation() {
 		rt.Assert(fsys.Exists(rootDir), "temp-root-retained-with-testwork")
 	} else {
 		rt.Assert(!fsys.Exists(rootDir), "temp-root-removed-after-last-script")
+	}
+	if deferExits {
+		rt.Reach("deferred-function-ends-test")
+		rt.Assert(root.subs[0].failed, "failing-deferred-function-fails-the-run")
+		return
 	}
 	switch exit {
 	case 0, 3:
